@@ -78,3 +78,13 @@ Definition has_key (f : sfield) (k : str) (s : cstate) : bool :=
   | FPolicy => false
   | FModels => match mget k (models s) with Some _ => true | None => false end
   end.
+
+(* names of the Rust variants / fields the model's constructors stand for (same order as Model.command) *)
+Definition model_variant_names : list string :=
+  ["RegisterWorker"; "DeregisterWorker"; "WorkerStatusChanged"; "WorkerPipelinesUpdated"; "GroupDeployed";
+   "GroupUpdated"; "GroupRemoved"; "MigrationStarted"; "MigrationUpdated"; "MigrationRemoved"; "ConnectorCreated";
+   "ConnectorUpdated"; "ConnectorRemoved"; "ScalingPolicySet"; "ModelRegistered"; "ModelRemoved"].
+Definition model_field_names : list (list string) :=
+  [["id"; "address"; "api_key"; "capacity"]; ["id"]; ["id"; "status"]; ["id"; "assigned_pipelines"];
+   ["name"; "group"]; ["name"; "group"]; ["name"]; ["task"]; ["id"; "status"]; ["id"];
+   ["name"; "connector"]; ["name"; "connector"]; ["name"]; ["policy"]; ["name"; "entry"]; ["name"]].
